@@ -123,6 +123,14 @@ def record_and_validate(ctx, pid, c, ntraces, length, ops=None, spec_ops='AllOps
             continue
         d = diag[0] if diag else {}
         if d and not d.get('enabled', True):
+            if str(d.get('ev', {}).get('op', '')).startswith('boot_'):
+                # the draw was OBSERVED at numpy.random.randint: a draw the specification does not enable (wrong
+                # number of draws, draws outside the groups) is the library's doing, not the recorder's
+                ctx.violation(f"{pid}/{d['ev']['op']}/draw",
+                              'observed bootstrap draw is not a draw of as many groups as there are distinct groups',
+                              {'seed': meta[idx][0], 'flavour': meta[idx][1], 'diag': d,
+                               'events': [x['ev'] for x in traces[idx]]})
+                continue
             raise MachineryError(f'recorder issued an event the specification does not enable: {d.get("ev")}')
         ev = d.get('ev', {})
         op = ev.get('op', '?')
